@@ -277,3 +277,87 @@ func VH_C05_nearby_fence() {
 	vassert("C05.N.fset_delivered", vhSameStrings(vhDelivered(s, &d4, h), vhExpected(vhNearInside[p2], vhNearInside[p2], false, all, true)))
 	vobs("nearbyfence", p1, p2)
 }
+
+// VH_C05_shapes_sequence: points and rectangles (inside, straddling the edge, outside) in sequences of three SETs of
+// one object against a WITHIN or an INTERSECTS fence. WITHIN and INTERSECTS differ exactly on the straddling
+// rectangle, and keep differing whatever was evaluated before (the 'cross' test of an earlier outside->outside
+// move temporarily evaluates a WITHIN fence as INTERSECTS). 'cross' = both positions outside and the segment
+// between the two objects' centres meets the area.
+//   x = lon, y = lat; area = BOUNDS 0 0 10 10
+var vhShapes = [][]string{
+	{"POINT", "5", "5"},                  // 0 point inside, centre (5,5)
+	{"POINT", "5", "-5"},                 // 1 point west, centre (-5,5)
+	{"POINT", "30", "30"},                // 2 point far north-east, centre (30,30)
+	{"BOUNDS", "2", "2", "8", "8"},       // 3 rectangle inside, centre (5,5)
+	{"BOUNDS", "5", "5", "20", "20"},     // 4 rectangle straddling the north-east corner, centre (12.5,12.5)
+	{"BOUNDS", "20", "20", "30", "30"},   // 5 rectangle outside, centre (25,25)
+	{"POINT", "5", "15"},                 // 6 point east, centre (15,5)
+}
+
+// inside by fence kind (0 = WITHIN, 1 = INTERSECTS)
+var vhShapeInside = [2][7]bool{
+	{true, false, false, true, false, false, false},
+	{true, false, false, true, true, false, false},
+}
+
+// the segment between the centres of shapes a and b meets the area (computed by hand, see the table above)
+func vhShapesCross(a, b int) bool {
+	if a > b {
+		a, b = b, a
+	}
+	switch {
+	case a == 1 && (b == 2 || b == 4 || b == 5 || b == 6):
+		return true // from the west point every path to the east side passes through the area
+	}
+	return false
+}
+
+//verif:cfg b_fence=WITHIN|INTERSECTS_BOUNDS_0_0_10_10 b_detect=default|inside,outside|enter,exit,cross b_objects=7_(points_and_rectangles:_inside,_straddling,_outside) b_sequence=3_SETs_of_one_object b_filter=none|MATCH_t*|WHERE_speed_0_10_(object_has_speed_5) ignorego=1
+func VH_C05_shapes_sequence() {
+	s := vhServer()
+	k := vchoose(2)
+	kind := [2]string{"WITHIN", "INTERSECTS"}[k]
+	dsel := vchoose(3)
+	var det [5]bool
+	all := dsel == 0
+	args := []string{"SETCHAN", "ch", kind, "fleet"}
+	filter := vchoose(3)
+	switch filter {
+	case 1:
+		args = append(args, "MATCH", "t*")
+	case 2:
+		args = append(args, "WHERE", "speed", "0", "10")
+	}
+	args = append(args, "FENCE")
+	switch dsel {
+	case 1:
+		args = append(args, "DETECT", "inside,outside")
+		det[0], det[1] = true, true
+	case 2:
+		args = append(args, "DETECT", "enter,exit,cross")
+		det[2], det[3], det[4] = true, true, true
+	}
+	args = append(args, "BOUNDS", "0", "0", "10", "10")
+	_, _, err := vhDo(s, args...)
+	vassert("C05.S.setchan_ok", err == nil)
+	h := vhHook(s, "ch")
+	vassert("C05.S.hook_registered", h != nil)
+	prev, prevIn := -1, false
+	for step := 0; step < 3; step++ {
+		p := vchoose(len(vhShapes))
+		_, d, err := vhDo(s, append([]string{"SET", "fleet", "truck", "FIELD", "speed", "5"}, vhShapes[p]...)...)
+		vassert("C05.S.set_ok", err == nil)
+		in := vhShapeInside[k][p]
+		cross := prev >= 0 && !prevIn && !in && vhShapesCross(prev, p)
+		want := vhExpected(prevIn, in, cross, det, all)
+		got := vhDelivered(s, &d, h)
+		vobs("shape", k, dsel, filter, step, prev, p, len(got))
+		vassert("C05.S.notifications_follow_the_fence_kind_at_every_step", vhSameStrings(got, want))
+		prev, prevIn = p, in
+	}
+	// an object whose id does not match the fence's MATCH pattern is never reported
+	if filter == 1 {
+		_, d, _ := vhDo(s, "SET", "fleet", "car", "POINT", "5", "5")
+		vassert("C05.S.match_filter_excludes_other_ids", len(vhDelivered(s, &d, h)) == 0)
+	}
+}
